@@ -33,6 +33,22 @@ HIST_ASSUME = ["all events of one vBucket are fed by one goroutine at a time (go
                "Layer-A fakes of couchbase.Client / metadata.Metadata / models.Consumer are the trusted base; the fake store writes per vBucket like the Couchbase backend"]
 
 CHECKS = {
+    "C13": dict(
+        level="fault_enumeration",
+        rule="every case runs the real dcp.Start()/Close() (VerifNewDcp hook) in a child process and delivers Close() - or a real SIGINT - in a "
+             "generated lifecycle state reached through barriers: idle after ready; consumer blocked inside ConsumeEvent; a save blocked inside "
+             "the store that later succeeds or fails; inside a rebalance right after the stream was closed / during the delay / while the "
+             "reopen is blocked in OpenStream; x checkpoint auto|manual x health check on|off x HTTP API on|off x rollback mitigation on (real "
+             "client + real polling on an in-process 3-node simulated cluster) | off x preceding deliveries/acks. Oracle: the child neither "
+             "crashes nor hangs, Start() returns within 20 s (typical: ms), with auto checkpointing the durable store covers every position "
+             "settled before Close (states with an open stream), CloseStream for every open vBucket, DcpClose/Close once, no ConsumeEvent after "
+             "Start() returned, and - after one interval of grace - no checkpoint write, ping, stream request or OBSERVE_SEQNO in a quiet "
+             "window of 3x(intervals + rebalance delay). non-trivial = any state other than idle",
+        assumptions=["a 'slow' store / consumer / OpenStream call returns after <= 60 ms (a store that never returns is outside 'bounded time')",
+                     "in rebalance-window states the durability clause is not asserted: the stream forgets unsaved positions when a rebalance closes it (they are re-delivered)",
+                     "rollback mitigation on => health check off (the simulated node has no management endpoint for Ping)"],
+        units=[rapid("TestC13_Shutdown", 1, 1, 4, 16), plain("TestC13_KnownFindings")],
+    ),
     "C15": dict(
         level="fault_enumeration",
         rule="every case runs the real dcp.Start() (VerifNewDcp hook, interface-level fakes) in a child process: generated bucket size, group shape "
